@@ -143,14 +143,14 @@ func RunStream(sc *StreamScenario, kind, tmp string) (fail string) {
 	// the caller owns its buffer: like io.Copy it reuses ONE buffer for every chunk and overwrites it as soon
 	// as Write has returned (io.Writer: "implementations must not retain p")
 	var shared []byte
-	for _, c := range sc.Chunks {
+	for ci, c := range sc.Chunks {
 		src := ChunkBytes(c)
 		if cap(shared) < len(src) {
 			shared = make([]byte, len(src))
 		}
 		b := shared[:len(src)]
 		copy(b, src)
-		n, err := w.Write(b)
+		n, err := WriteVia(w, b, ci+len(sc.Chunks))
 		if err != nil || n != len(b) {
 			w.Close()
 			return fmt.Sprintf("Write(%s) = %d, %v", c, n, err)
@@ -224,6 +224,12 @@ func contentOf(tok string) []byte {
 		return ChunkBytes("p2")
 	case "k":
 		return []byte("keep-me")
+	case "same-x", "same-y":
+		b := append([]byte{}, contentOf(tok[5:])...)
+		for i := range b {
+			b[i] ^= 0x20
+		}
+		return b
 	}
 	return []byte(tok)
 }
